@@ -7,7 +7,7 @@ def S(s):
     k=s['k']
     b={'lit':lambda:s['lit'],'var':lambda:'{'+s['name']+'}','re':lambda:'{'+s['name']+':'+s['re']+'}','affix':lambda:s.get('pre','')+'{'+s['name']+'}'+s.get('suf',''),'tail':lambda:'{'+s['name']+':*}'}[k]()
     return b+(':'+s['verb'] if s.get('verb') else '')
-def T(t): return '/'+'/'.join(S(s) for s in t)
+def T(t): return '/'+'/'.join(S(s) for s in (t or []))
 print({k:v for k,v in c.items() if k not in('table','reqs')})
 if 'table' in c:
   for s in c['table']['services']:
